@@ -367,6 +367,8 @@ def bind_native(environment, native, alias=None):
         bind_native_fun(environment, FuncSplit(), alias)
     elif native == "split2":
         bind_native_fun(environment, FuncSplit2(), alias)
+    elif native == "sprintf":
+        bind_native_fun(environment, FuncSprintf(), alias)
     elif native == "sqrt":
         bind_native_fun(environment, FuncSqrt(), alias)
     elif native == "str_input":
@@ -3695,6 +3697,11 @@ class FuncS(ValueFunc):
         if start < 0:
             # counted from the end, at most back to the beginning
             start = max(0, len(s) + start)
+        return self.interpolate(s, start, dict(), environment, pos)
+
+    def interpolate(self, s, start, numbered, environment, pos):
+        # numbered: the values of the placeholders that are no expressions
+        # (the arguments of sprintf, by the text of their index)
         while True:
             idx1 = s.find("{", start)
             if idx1 == -1:
@@ -3737,15 +3744,19 @@ class FuncS(ValueFunc):
                         + s[idx1+1:idx2] + "}",
                         pos,
                     )
-            try:
-                node = parse_script(variable, pos.filename)
-            except CklSyntaxError as e:
-                raise CklRuntimeError(
-                    ValueString("ERROR"),
-                    "Cannot parse expression {" + variable + "}: " + e.msg,
-                    pos,
-                )
-            value = node.evaluate(environment)
+            if variable in numbered:
+                value = numbered[variable]
+            else:
+                try:
+                    node = parse_script(variable, pos.filename)
+                except CklSyntaxError as e:
+                    raise CklRuntimeError(
+                        ValueString("ERROR"),
+                        "Cannot parse expression {" + variable + "}: "
+                        + e.msg,
+                        pos,
+                    )
+                value = node.evaluate(environment)
             # a number is padded with zeroes between its sign and its digits
             numeric = value.isNumerical() or base != 10 or digits != -1
             value = value.asString().value
@@ -3987,6 +3998,46 @@ class FuncSplit2(ValueFunc):
         for i in range(len(lst)):
             lst[i] = splitValue(lst[i].value, sep2)
         return result
+
+
+class FuncSprintf(FuncS):
+    def __init__(self):
+        super().__init__()
+        self.name = "sprintf"
+        self.info = "\r\n".join(
+            [
+                "sprintf(fmt, args...)",
+                "",
+                "Formats a string format using the provided args. Each",
+                "value can be referred to in the fmt string using the",
+                "{0} syntax, where 0 means the first argument passed.",
+                "",
+                "This uses internally the s function. See there for",
+                "an explanation of available formatting suffixes.",
+                "",
+                ": sprintf('{0} {1}', 1, 2) ==> '1 2'",
+                ": sprintf('{0} {1}', 'a', 'b') ==> 'a b'",
+                ": sprintf('{0#5} {1#5}', 1, 2) ==> '    1     2'",
+                ": sprintf('{0#-5} {1#-5}', 1, 2) ==> '1     2    '",
+                ": sprintf('{0#05} {1#05}', 1, 2) ==> '00001 00002'",
+                ": require Math; sprintf('{0#.4}', Math->PI) ==> '3.1416'",
+                ": sprintf('{0} {0#', 1) ==> '1 {0#'",
+                ": def name = 'x'; sprintf('{name} = {0}', 1) ==> 'x = 1'",
+            ]
+        )
+
+    def getArgNames(self):
+        return ["fmt", "args..."]
+
+    def execute(self, args, environment, pos):
+        if args.isNull("fmt"):
+            return NULL
+        fmt = args.getString("fmt").value
+        # every other placeholder is an expression of the caller, as in s
+        numbered = dict()
+        for i, value in enumerate(args.get("args...").value):
+            numbered[str(i)] = value
+        return self.interpolate(fmt, 0, numbered, environment, pos)
 
 
 class FuncSqrt(ValueFunc):
